@@ -13,10 +13,20 @@ Families
              `num_binary_variables` are stale, but `_solve_bruteforce` scans the keys of Matrix objects, so the
              property must hold on them (free functions and `.solve_bruteforce()`); the model is fed what the code
              reads (the stored terms, no bookkeeping)
-  problem    `Problem.solve_bruteforce` wrappers (oracle only: the converted minimisers of `to_qubo()`)
-  probe      freshly constructed BO objects whose bookkeeping is stale from birth (DESIGN.md §10 D1):
-             correspondence only (the model predicts the KeyError / the extra variables); counted in the
-             histogram and the notes, see `D1_AS_FINDING`
+  bhist      labelled BO objects (QUBO / PUBO / QUSO / PUSO / PCBO / PCSO) whose bookkeeping went through zero
+             assignments, squashed-away labels, cancelling terms and in-place cancelling edits, *not* refreshed
+             (DESIGN.md §10 D1, fixed upstream by 67e6723): free functions and methods; the model is fed the
+             bookkeeping the code reads (`num_binary_variables`, `_reverse_mapping`).  Regression signature
+             `C09:D1-labelled-stale-bookkeeping`
+  problem    `Problem.solve_bruteforce` wrappers: independent enumeration over ALL `num_binary_variables` labels of
+             the problem (oracle only); the D7 inputs (constant matrices, labels absent from the matrix; fixed
+             upstream by 9a5d806) are fixed regression inputs, signature `C09:D7-problem-wrapper-absent-variable`
+
+"The model's variables" in the oracle: the labels of the stored keys for plain dicts and Matrix objects (the code
+scans the keys); for the labelled BO types the variables the object itself reports (`variables`, which the
+bookkeeping keeps in step with `mapping` / `num_binary_variables`; a variable whose terms cancelled in place stays
+one until `refresh()` — the exactness of that cache is C14's subject, not C09's); a model without any label in its
+keys is constant (clause 4) whatever the cache says.
 
 The Lean side receives the terms of the real object *as stored before the call*, its bookkeeping
 (`num_binary_variables`, `_reverse_mapping`) when it has one, the mode and the predicate; it returns the
@@ -34,21 +44,20 @@ RULE = ("models with 1..8 variables and 1..8 terms, small integer / Fraction / d
         "offsets, all ten model types + plain dicts with raw keys, predicate menu always/never/parity/threshold/"
         "excluded assignment/table, both modes, four free functions and the methods; a case is non-trivial when the "
         "model has >= 2 variables and >= 2 terms and at least one assignment is valid; distinct = distinct case JSON")
-ASSUMPTIONS = ["BO types (labelled, with `_reverse_mapping`) are taken in refreshed state; Matrix types are also taken "
-               "with a stale variable cache (family mhist), because the code does not read the cache for them",
+ASSUMPTIONS = ["for the labelled BO types the model's variables are those the object reports (`variables` = the labels of "
+               "`mapping`); cancelled variables stay until refresh() (C14's subject). Plain dicts and Matrix types: the labels "
+               "of the stored keys (Matrix types also with a stale variable cache, family mhist)",
                "float coefficients (dyadic floats given directly, and the floats PCSO constraints create) are kept dyadic so "
                "that IEEE arithmetic is exact; float rounding is outside the model",
-               "models are taken in refreshed bookkeeping state (labels of the stored keys = mapping = variables); "
-               "stale bookkeeping (DESIGN.md §10 D1) is C14's subject and only probed here",
                "a Python set's iteration order is abstracted: every compared output is order-independent"]
 
-# freshly constructed BO objects with a zero coefficient have stale bookkeeping (D1) and solve_bruteforce raises
-# KeyError.  With False the probe family only records this (histogram + notes); with True it is reported as a
-# violation with signature "C09:D1-fresh-model-keyerror" (then list it in known_findings.json).
-D1_AS_FINDING = False
+# regression signatures of repaired defects (known_findings.json lists them under "fixed"; they suppress nothing)
+D1_SIG = "C09:D1-labelled-stale-bookkeeping"
+D7_SIG = "C09:D7-problem-wrapper-absent-variable"
 # PCBO / PCSO: an always-satisfied (or otherwise unpenalised) constraint that mentions a label which is not a variable
 # of the model is recorded, so `is_solution_valid` raises KeyError on every assignment the solver builds and
-# `solve_bruteforce()` raises.  Same treatment as above (signature "C09:constraint-on-absent-variable").
+# `solve_bruteforce()` raises.  Recorded in the histogram and the notes; with True reported as a violation with
+# signature "C09:constraint-on-absent-variable".
 ABSENT_AS_FINDING = False
 
 BOOL_FN, SPIN_FN = ("pubo", "qubo"), ("puso", "quso")
@@ -172,10 +181,10 @@ def gen_case(rng, family, big=False):
 
 HIST_OPS = ["isub", "set0", "isubdict", "iadddict"]
 
-def gen_hist_case(rng, via):
-    """a Matrix object whose variable cache is stale: label `n` (and sometimes another label) occurs only in terms
+def gen_hist_case(rng, via, kinds=None, family="mhist"):
+    """an object whose variable cache is stale: label `n` (and sometimes another label) occurs only in terms
     that are cancelled in place after construction"""
-    kind = rng.choice(sorted(MATRIX))
+    kind = rng.choice(sorted(kinds or MATRIX))
     fn = FN_OF_KIND[kind] if via == "method" else rng.choice([f for f in KINDS_OF_FN if kind in KINDS_OF_FN[f]])
     n = rng.choice([1, 2, 2, 3, 3, 4, 5])
     terms = gen_terms(rng, n, fn, kind, nterms=rng.randint(1, 6))
@@ -187,7 +196,8 @@ def gen_hist_case(rng, via):
     hist = [{"op": rng.choice(HIST_OPS), "var": n}]
     if rng.random() < 0.3:
         hist.append({"op": rng.choice(HIST_OPS), "var": rng.randrange(n)})
-    c = {"family": "mhist", "fn": fn, "kind": kind, "n": n + 1, "terms": terms, "hist": hist, "labels": "int",
+    c = {"family": family, "fn": fn, "kind": kind, "n": n + 1, "terms": terms, "hist": hist,
+         "labels": "int" if kind in MATRIX else rng.choice(Labels.STYLES),
          "num": rng.choice(["int", "int", "frac", "float"]), "all": rng.random() < 0.5, "via": via,
          "seed": rng.randrange(1 << 30),
          "valid": {"t": "always"} if via == "method" else gen_pred(rng, n, fn in SPIN_FN)}
@@ -234,6 +244,13 @@ def key_labels(d):
                 s.append(l)
     return s
 
+def model_vars(obj):
+    """the variables the property quantifies over (see the module docstring)"""
+    labs = key_labels(obj)
+    if labs and hasattr(obj, "_reverse_mapping"):
+        labs = labs + [l for l in sorted(obj.variables, key=repr) if l not in labs]
+    return labs
+
 def consistent(obj):
     """bookkeeping agrees with the stored keys (refreshed state)"""
     if type(obj) is dict:
@@ -249,8 +266,9 @@ def consistent(obj):
             return False
     return True
 
-def build(case, refresh=True):
-    """the real object D of the case; returns (D, tag) with tag in fresh / refreshed / None (unusable)"""
+def build(case):
+    """the real object D of the case, exactly as its construction / edit history leaves it (never refreshed);
+    returns (D, tag) with tag in dict / consistent / stale-cache / None (unusable)"""
     L = Labels(case["labels"])
     style = case["num"]
     items = [(tuple(lab_of(L, i) for i in key), num_of(v, style)) for key, v in case["terms"]]
@@ -259,7 +277,7 @@ def build(case, refresh=True):
         d = {}
         for k, v in items:
             d[k] = v
-        return d, "fresh"
+        return d, "dict"
     obj = cls_of(kind)(items)
     for con in case.get("cons", []):
         p = {tuple(lab_of(L, i) for i in key): num_of(v, "int") for key, v in con["p"]}
@@ -268,20 +286,20 @@ def build(case, refresh=True):
         o2 = apply_hist(obj, case["hist"], L)
         if o2 is not obj:
             return obj, None
-        return obj, ("edited-consistent" if consistent(obj) else "edited-stale-cache")
-    if consistent(obj):
-        return obj, "fresh"
-    if not refresh:
-        return obj, "stale"
-    obj.refresh()
-    if consistent(obj):
-        return obj, "refreshed"
-    return obj, None
+    return obj, ("consistent" if consistent(obj) else "stale-cache")
+
+def d1_input(case, tag):
+    """the case exercises the bookkeeping paths of D1: a labelled type with a zero assignment, a repeated label in
+    a key, or a stale cache"""
+    if case["kind"] not in BO:
+        return False
+    return (case["family"] == "bhist" or tag == "stale-cache" or bool(case.get("hist"))
+            or any(Fraction(v) == 0 or len(set(k)) < len(k) for k, v in case["terms"]))
 
 def fill_pred(case, obj, L):
     """complete the predicate of the case once the object's variables are known; returns the JSON predicate"""
     pred = dict(case["valid"])
-    labs = key_labels(obj)
+    labs = model_vars(obj)
     spin = case["fn"] in SPIN_FN
     if pred["t"] == "excl" and pred.get("x") is None:
         import random
@@ -434,8 +452,9 @@ def poly_value(d, x):
         tot += m
     return tot
 
-def oracle(case, d0, pred, L, res, log):
-    """the property statement evaluated on the real result.  d0: copy of the object taken before the call."""
+def oracle(case, d0, pred, L, res, log, V):
+    """the property statement evaluated on the real result.  d0: copy of the terms taken before the call;
+    V: the model's variables (`model_vars` of the object before the call)."""
     if log:
         return "; ".join(log)
     if res is None:
@@ -447,8 +466,8 @@ def oracle(case, d0, pred, L, res, log):
     spin = case["fn"] in SPIN_FN
     dom = (1, -1) if spin else (0, 1)
     valid = make_valid(pred, L)
-    labs = key_labels(d0)
-    if not labs:
+    labs = list(V)
+    if not key_labels(d0):
         # constant model (clause 4 of the property; `valid` is not consulted by that clause)
         const = Fraction(d0.get((), 0))
         if free and (obj_v is None or Fraction(obj_v) != const):
@@ -491,8 +510,15 @@ def oracle(case, d0, pred, L, res, log):
 
 # ------------------------------------------------------------------ Problem wrappers (oracle only)
 
+# the inputs of DESIGN.md §10 D7: the QUBO matrix is constant or lacks a label of the problem
+D7_INPUTS = [("GraphPartitioning", [[[0, 1]]]), ("GraphPartitioning", [[[0, 1], [2, 3]]]),
+             ("NumberPartitioning", [[3]]), ("NumberPartitioning", [[2, 2]]),
+             ("BILP", [[0, 1], [[0, 1]], [1]]), ("BILP", [[1, 0, 0], [[0, 1, 0]], [1]]),
+             ("VertexCover", [[[0, 1]]])]
+
 def problem_cases(rng, count):
-    out = []
+    out = [{"family": "problem", "cls": t, "fixed": args, "seed": 0, "all": al}
+           for t, args in D7_INPUTS for al in (False, True)]
     for _ in range(count):
         t = rng.choice(["SetCover", "VertexCover", "NumberPartitioning", "GraphPartitioning", "BILP",
                         "AlternatingSectorsChain", "JobSequencing"])
@@ -504,6 +530,11 @@ def build_problem(case):
     from qubovert import problems as P
     r = random.Random(case["seed"])
     t = case["cls"]
+    if case.get("fixed") is not None:
+        a = case["fixed"]
+        if t in ("GraphPartitioning", "VertexCover"):
+            return getattr(P, t)({tuple(e) for e in a[0]})
+        return getattr(P, t)(*a)
     if t == "SetCover":
         U = set(range(r.randint(2, 4)))
         V = [set(r.sample(sorted(U), r.randint(1, len(U)))) for _ in range(r.randint(2, 3))]
@@ -540,47 +571,57 @@ def hashable(o):
     return repr(o)
 
 def run_problem(ctx, case):
-    """`Problem.solve_bruteforce` = convert_solution of the QUBO's brute-force solution(s).  Oracle: enumerate the
-    QUBO returned by `to_qubo()` independently and convert its minimisers."""
+    """`Problem.solve_bruteforce` (the classes that inherit it).  Oracle from the property text: the wrapper returns
+    the converted form of an assignment of ALL `num_binary_variables` labels of the problem that minimises
+    `to_qubo()`; with all_solutions the converted form of every such minimiser exactly once.  The enumeration
+    here runs over `range(num_binary_variables)` independently of the matrix's own variable set."""
     try:
         prob = build_problem(case)
-    except Exception as e:
+    except Exception:
         ctx.count("problem:unbuildable"); return
     if type(prob).solve_bruteforce.__qualname__ != "Problem.solve_bruteforce":
         ctx.count("problem:own-solver:" + case["cls"])
+        return
     try:
         Q = prob.to_qubo()
-        labs = sorted(Q.variables)
-        if len(labs) > 12:
-            ctx.count("problem:too-big"); return
+        N = prob.num_binary_variables
+    except Exception:
+        ctx.count("problem:to_qubo-raises:" + case["cls"]); return
+    if N > 12:
+        ctx.count("problem:too-big"); return
+    labs = list(range(N))
+    absent = sorted(set(labs) - set(key_labels(Q)))
+    sig = D7_SIG if absent else "C09:problem-wrapper"
+    ctx.case(case, N >= 2)
+    ctx.count("problem:%s:%s" % (case["cls"], "label-absent-from-matrix" if absent else "all-labels-in-matrix"))
+    before = (snap(Q), N)
+    try:
         got = prob.solve_bruteforce(all_solutions=case["all"])
     except Exception as e:
-        # D7 (C10's subject): the wrapper decodes a solution that is shorter than num_binary_variables
-        ctx.count("problem:raises:%s:%s" % (case["cls"], exc_name(e)))
+        ctx.violation(sig, case, "%s%s.solve_bruteforce(all_solutions=%s) raises %r (num_binary_variables=%d, labels "
+                      "absent from to_qubo(): %s)" % (case["cls"], case.get("fixed", ""), case["all"], e, N, absent))
         return
-    ctx.case(case, len(labs) >= 2)
-    ctx.count("problem:" + case["cls"])
-    if type(prob).solve_bruteforce.__qualname__ != "Problem.solve_bruteforce":
-        return
+    if any(l not in labs for l in key_labels(Q)):
+        ctx.count("problem:matrix-label-outside-range"); return
     table = []
-    for vals in itertools.product((0, 1), repeat=len(labs)):
+    for vals in itertools.product((0, 1), repeat=N):
         x = dict(zip(labs, vals))
         table.append((poly_value(Q, x), x))
-    if not table:
-        return
     m = min(v for v, _ in table)
     try:
         want = [hashable(prob.convert_solution(x)) for v, x in table if v == m]
     except Exception:
         ctx.count("problem:convert-raises:" + case["cls"]); return
     if case["all"]:
-        g = sorted(map(repr, map(hashable, got)))
-        if g != sorted(map(repr, want)):
-            ctx.violation("C09:problem-wrapper", case, "%s.solve_bruteforce(all_solutions=True) returns %r; the converted "
-                          "minimisers of to_qubo() are %r" % (case["cls"], got, want))
+        if not isinstance(got, list):
+            ctx.violation(sig, case, "%s.solve_bruteforce(all_solutions=True) returns %r, not a list" % (case["cls"], got))
+        elif sorted(map(repr, map(hashable, got))) != sorted(map(repr, want)):
+            ctx.violation(sig, case, "%s%s.solve_bruteforce(all_solutions=True) returns %r; the converted minimisers of "
+                          "to_qubo() over all %d labels are %r (each exactly once)"
+                          % (case["cls"], case.get("fixed", ""), got, N, want))
     elif hashable(got) not in want:
-        ctx.violation("C09:problem-wrapper", case, "%s.solve_bruteforce() returns %r, not a converted minimiser of "
-                      "to_qubo()" % (case["cls"], got))
+        ctx.violation(sig, case, "%s%s.solve_bruteforce() returns %r, which is not the converted form of a minimiser of "
+                      "to_qubo() over all %d labels (those are %r)" % (case["cls"], case.get("fixed", ""), got, N, want))
 
 # ------------------------------------------------------------------ exhaustive constant family
 
@@ -613,26 +654,31 @@ def malformed_case(rng):
             "num": "int", "all": rng.random() < 0.5, "via": "free", "valid": gen_pred(rng, n, fn == "quso"),
             "seed": rng.randrange(1 << 30)}
 
-def probe_case(rng):
-    """a BO object whose bookkeeping is stale from birth (D1): a zero coefficient, a label that is squashed away
-    (spin types), or two terms that cancel"""
+def bhist_case(rng, via):
+    """a labelled BO object whose bookkeeping went through the paths of D1 — a zero assignment, a label that is
+    squashed away (spin types), two terms that cancel in the constructor — and, half of the time, an in-place
+    cancelling edit afterwards; never refreshed"""
     kind = rng.choice(sorted(BO))
-    fn = FN_OF_KIND[kind]
+    fn = FN_OF_KIND[kind] if via == "method" else rng.choice([f for f in KINDS_OF_FN if kind in KINDS_OF_FN[f]])
     n = rng.randint(2, 4)
-    terms = gen_terms(rng, n, fn, kind, nterms=rng.randint(1, 3))
+    terms = gen_terms(rng, n, fn, kind, nterms=rng.randint(1, 4))
     variant = rng.choice(["zero", "cancel", "squash" if fn in SPIN_FN else "zero"])
     i, j = rng.sample(range(n + 1), 2)           # label n is not used by the other terms
     if variant == "zero":
         extra = [[[i], "0"]]
     elif variant == "squash":
-        extra = [[[i, i, j] if kind not in DEG2 else [i, i], "2"]]
+        extra = [[[i, i, j] if (kind not in DEG2 and fn != "quso") else [i, i], "2"]]
     else:
         extra = [[[i, j], "1"], [[j, i], "-1"]]
     for t in extra:
         terms.insert(rng.randrange(len(terms) + 1), t)
-    return {"family": "probe", "variant": variant, "fn": fn, "kind": kind, "n": n + 1, "terms": terms,
-            "labels": rng.choice(Labels.STYLES), "num": "int", "all": rng.random() < 0.5,
-            "via": rng.choice(["free", "method"]), "valid": {"t": "always"}, "seed": rng.randrange(1 << 30)}
+    c = {"family": "bhist", "variant": variant, "fn": fn, "kind": kind, "n": n + 1, "terms": terms,
+         "labels": rng.choice(Labels.STYLES), "num": rng.choice(["int", "int", "frac"]), "all": rng.random() < 0.5,
+         "via": via, "seed": rng.randrange(1 << 30),
+         "valid": {"t": "always"} if via == "method" else gen_pred(rng, n + 1, fn in SPIN_FN)}
+    if rng.random() < 0.5:
+        c["hist"] = [{"op": rng.choice(HIST_OPS), "var": rng.randrange(n + 1)}]
+    return c
 
 # ------------------------------------------------------------------ driver of the check
 
@@ -646,13 +692,12 @@ def process(ctx, cases):
             run_problem(ctx, c)
             continue
         L = Labels(c["labels"])
-        obj, tag = build(c, refresh=(c["family"] != "probe"))
+        obj, tag = build(c)
         if tag is None:
-            ctx.count("skipped:inconsistent-after-refresh")
+            ctx.count("skipped:unusable")
             continue
-        if c["family"] == "probe" and tag != "stale":
-            ctx.count("probe:not-stale")
-        if len(key_labels(obj)) > 9:
+        V = model_vars(obj)
+        if len(V) > 9:
             ctx.count("skipped:too-many-variables")
             continue
         pred = fill_pred(c, obj, L)
@@ -661,9 +706,9 @@ def process(ctx, cases):
             continue
         line = model_line(c, obj, pred, L)
         d0 = copy.deepcopy(dict(obj))          # plain copy of the terms for the oracle
-        prepared.append((c, L, obj, tag, pred, line, d0))
+        prepared.append((c, L, obj, tag, pred, line, d0, V))
     models = common.run_driver([p[5] for p in prepared])
-    for (c, L, obj, tag, pred, line, d0), m in zip(prepared, models):
+    for (c, L, obj, tag, pred, line, d0, V), m in zip(prepared, models):
         if "driver_error" in m:
             raise common.Infra("driver: %s on %s" % (m["driver_error"], json.dumps(line)[:300]))
         impl, res, log = run_impl(c, obj, pred, L)
@@ -675,7 +720,9 @@ def process(ctx, cases):
         ctx.count("%s:%s:%s:%s" % (fam, c["kind"], c["fn"] if c["via"] == "free" else "method", "all" if c["all"] else "one"))
         ctx.count("pred:" + pred["t"])
         ctx.count("state:" + tag)
-        ctx.count("nvars:%d" % len(key_labels(obj)))
+        ctx.count("nvars:%d" % len(V))
+        if len(V) > len(key_labels(d0)):
+            ctx.count("labelled:cached-variable-without-term")
         if "err" in impl:
             ctx.count("result:err:" + impl["err"])
         elif "bad" not in impl:
@@ -686,30 +733,15 @@ def process(ctx, cases):
             if model is not None and "err" not in model:
                 ctx.count("after-order:" + ("same" if canon_terms_ordered(obj, L) == m["res"]["after_order"] else "differs"))
         diff = compare(c, impl, model, argmin)
-        if fam == "probe":
-            # stale from birth: the model is run on the stale bookkeeping and must predict the behaviour
-            ctx.case(rec, False)
-            if diff:
-                ctx.diff("probe", rec, impl, model)
-            bad = oracle(c, d0, pred, L, res, log)
-            if bad:
-                ctx.count("probe:property-fails:" + c["variant"] + ":" + ("raises" if impl.get("err") else "wrong-variables"))
-                if len([n for n in ctx.notes if n.startswith("D1 probe")]) < 3:
-                    ctx.notes.append("D1 probe (freshly constructed %s from %s, via %s): %s" % (c["kind"], c["terms"], c["via"], bad))
-                if D1_AS_FINDING:
-                    ctx.violation("C09:D1-fresh-model-keyerror", rec, bad)
-            else:
-                ctx.count("probe:property-holds")
-            continue
         n_valid = len(argmin) if argmin is not None and impl.get("obj", 1) is not None else 0
         ctx.case(rec, nontrivial(c, d0, n_valid))
         if diff:
             ctx.diff(fam, rec, impl, dict(model or {}, why=diff))
         if fam == "malformed":
             continue
-        bad = oracle(c, d0, pred, L, res, log)
+        bad = oracle(c, d0, pred, L, res, log, V)
         if bad:
-            ctx.violation("C09:" + fam, rec, bad)
+            ctx.violation(D1_SIG if d1_input(c, tag) else "C09:" + fam, rec, bad)
 
 def absent_variable(ctx, c, obj):
     """a recorded constraint mentions a label that is not a variable of the model (see ABSENT_AS_FINDING)"""
@@ -738,7 +770,10 @@ def gen_all(ctx):
     cases += [gen_hist_case(rng, "free") for _ in range(ctx.scale(600, 8000))]
     cases += [gen_hist_case(rng, "method") for _ in range(ctx.scale(400, 5000))]
     cases += [malformed_case(rng) for _ in range(ctx.scale(200, 2000))]
-    cases += [probe_case(rng) for _ in range(ctx.scale(150, 1500))]
+    cases += [bhist_case(rng, "free") for _ in range(ctx.scale(500, 7000))]
+    cases += [bhist_case(rng, "method") for _ in range(ctx.scale(400, 5000))]
+    cases += [gen_hist_case(rng, "free", BO, "bhist") for _ in range(ctx.scale(200, 3000))]
+    cases += [gen_hist_case(rng, "method", BO, "bhist") for _ in range(ctx.scale(150, 2000))]
     cases += problem_cases(rng, ctx.scale(150, 1500))
     return cases
 
@@ -755,7 +790,7 @@ def search(ctx):
     extra = []
     for d in ctx.diffs[:40]:
         c = d["case"]
-        if c["family"] in ("probe", "malformed", "problem"):
+        if c["family"] in ("malformed", "problem"):
             continue
         if c["valid"]["t"] == "table":
             c = dict(c, valid={"t": "always"})
@@ -766,6 +801,7 @@ def search(ctx):
                 extra.append(dict(c, all=al, valid={"t": "always"}, via="method", family="method"))
     extra += [gen_case(ctx.rng, ctx.rng.choice(["free", "method"])) for _ in range(3000)]
     extra += [gen_hist_case(ctx.rng, ctx.rng.choice(["free", "method"])) for _ in range(1000)]
+    extra += [bhist_case(ctx.rng, ctx.rng.choice(["free", "method"])) for _ in range(1000)]
     for c in extra:
         L = Labels(c["labels"])
         obj, tag = build(c)
@@ -775,10 +811,12 @@ def search(ctx):
         if pred is None:
             continue
         d0 = copy.deepcopy(dict(obj))
+        V = model_vars(obj)
         impl, res, log = run_impl(c, obj, pred, L)
-        bad = oracle(c, d0, pred, L, res, log)
+        bad = oracle(c, d0, pred, L, res, log, V)
         if bad:
-            ctx.violation("C09:" + c["family"], dict(c, valid=pred if pred["t"] != "table" else {"t": "always"}), bad)
+            ctx.violation(D1_SIG if d1_input(c, tag) else "C09:" + c["family"],
+                          dict(c, valid=pred if pred["t"] != "table" else {"t": "always"}), bad)
 
 def replay(ctx, payload):
     c = payload.get("case") or (payload.get("first_difference") or {}).get("case")
